@@ -219,6 +219,21 @@ def templates(rng):
     MA = _dc(m, "MutA", {"b": Optional["MutB"]}, {"b": None})
     MB = _dc(m, "MutB", {"a": Optional[MA], "n": Optional[SR]}, {"a": None, "n": None})
     out.append(("mutually recursive dataclasses", MA, [MA(MB(MA(), SR(1)))], {"self-reference"}))
+    # classes that serialize themselves (SerializableType), dataclasses included: written as what _serialize returns
+    from mashumaro.types import SerializableType
+
+    def _money_ser(self) -> str:
+        return f"{self.amount} {self.cur}"
+
+    def _money_de(cls, value: str):
+        a, c = value.split()
+        return cls(int(a), c)
+
+    MO = _dc(m, "Money", {"amount": int, "cur": str}, {"_serialize": _money_ser, "_deserialize": classmethod(_money_de)}, mixin=False)
+    MO = dataclasses.dataclass(type("Money", (MO, SerializableType), {"__module__": m.__name__}))
+    setattr(m, "Money", MO)
+    HM = _dc(m, "HasMoney", {"price": MO, "all": List[MO]}, {"all": dataclasses.field(default_factory=list)})
+    out.append(("dataclass implementing SerializableType", HM, [HM(MO(5, "EUR")), HM(MO(1, "USD"), [MO(2, "USD")])], {"serializable-type"}))
     # dataclass(slots=True): class attributes are slot descriptors, not defaults
     SL = _dc(m, "Slotted", {"when": datetime.date, "items": List[int], "n": int, "s": str}, {"items": dataclasses.field(default_factory=list), "n": 3, "s": "q"}, slots=True)
     out.append(("dataclass with slots", SL, [SL(datetime.date(2024, 2, 29)), SL(datetime.date(2024, 2, 29), [1], 2, "z")], {"slots"}))
